@@ -249,8 +249,16 @@ pub fn case(t: &mut Tape, ctx: &CaseCtx) -> CaseResult {
         script.reboot_needed = vec![true; 3];
         script.reboot_allowed = vec![(false, false), (false, false), (false, false), (true, true)];
     }
+    if t.chance(1, 4) {
+        // an embedder that uses the shared app set / storage in reaction to events (holds the mutex during the next poll)
+        script.busy_app_set_mask = t.raw() | t.raw();
+        script.busy_storage_mask = t.raw() & t.raw();
+    }
     let h = run_history(script, &lives);
-    let (nontrivial, classes) = check_history(&h)?;
+    let (nontrivial, mut classes) = check_history(&h)?;
+    if h.log.iter().any(|o| matches!(o, Op::EmbedderHoldsAppSet)) {
+        classes.push("embedder_holds_app_set_during_a_poll");
+    }
     Ok(CaseReport {
         key: hash_of(&format!("{:?}{:?}", h.script, lives)),
         nontrivial,
